@@ -164,6 +164,14 @@ func (l *Link) Peer() *Peer {
 	return l.peer
 }
 
+// PeersMu calls f with every peer dialled so far (all generations).
+func (l *Link) PeersMu(f func(peers []*Peer)) {
+	l.mu.Lock()
+	ps := append([]*Peer(nil), l.Peers...)
+	l.mu.Unlock()
+	f(ps)
+}
+
 // OpenLink builds an active hsmsss connection dialling into a scripted Peer and opens it
 // (waiting for Selected). Extra connection options come after the quiet defaults.
 func OpenLink(sessionID uint16, setup func(p *Peer), opts ...hsms.ConnOption) (*Link, error) {
